@@ -2,7 +2,7 @@
 import itertools, os, re
 from .core import hexs, REPO, VERIF
 
-DEB822_ALPHABET = ["A", "-", ":", "#", " ", "\t", "\n", "\r", "é", "\x01"]
+DEB822_ALPHABET = ["A", "-", ":", "#", " ", "\t", "\n", "\r", "é", "\x01", "\u00a0"]   # U+00A0: Unicode (non-ASCII) whitespace
 
 def exhaustive(alphabet, n):
     for k in range(0, n + 1):
@@ -163,7 +163,7 @@ def deb822_text_cases(tier, rng, prefix):
     return cases
 
 # ---------------------------------------------------------------- relationship fields
-REL_ALPHABET = ["a", "1", ":", "|", ",", "(", ")", "[", "]", "!", "<", ">", "=", "$", "{", "}", " ", "\t", "\r", "\n", "@"]
+REL_ALPHABET = ["a", "1", ":", "|", ",", "(", ")", "[", "]", "!", "<", ">", "=", "$", "{", "}", " ", "\t", "\r", "\n", "@", "\u00a0"]
 
 def repo_rel_corpus():
     out = []
